@@ -117,9 +117,9 @@ AddEncR(b, len, cipher, idx) ==
   LET c == [mode |-> "E", inner |-> InnerOf(b.mode), cipher |-> cipher, idx |-> idx, off |-> b.clen,
             len |-> len, org |-> "enc", kind |-> "-", dsz |-> DszOf(cipher, "-", b.mode), dck |-> DckOf(cipher)]
       st == Added(b, <<c>>, len)
-  IN IF ~InDomain(b, cipher) THEN Ret(st, IF Lenient(b, cipher) THEN "ok" ELSE "err", TRUE)
-     ELSE IF idx = NChunks(b) THEN Ret(st, "ok", ~b.sure)
-     ELSE Ret(st, IF Known("F01b") THEN "ok" ELSE "err", TRUE)
+  IN IF idx # NChunks(b) THEN Ret(st, IF Known("F01b") /\ Lenient(b, cipher) THEN "ok" ELSE "err", TRUE)
+     ELSE IF ~InDomain(b, cipher) THEN Ret(st, IF Lenient(b, cipher) THEN "ok" ELSE "err", TRUE)
+     ELSE Ret(st, "ok", ~b.sure)
 
 \* add_chunk(ChunkData::new(data, m)) / a chunk taken from a parsed file (decompressed size unknown)
 AddChunkR(b, len, m, kind) ==
@@ -154,7 +154,10 @@ TilesTo(b) == LET RECURSIVE T(_, _)
                               ELSE T(i + 1, at + b.chunks[i].len)
               IN T(1, 0)
 Identity(b)      == TilesTo(b) = b.clen
-TableTruthful(b) == \A p \in 1..NChunks(b) : b.chunks[p].dsz = "len" /\ (b.table = "ext" => b.chunks[p].dck = "dec")
+\* a single unencrypted chunk is written with the 8-byte header and no table (unless the 40-byte format is forced)
+HasTable(b)      == NChunks(b) > 1 \/ b.table = "ext" \/ \E p \in 1..NChunks(b) : b.chunks[p].mode = "E"
+TableTruthful(b) == HasTable(b) =>
+                      \A p \in 1..NChunks(b) : b.chunks[p].dsz = "len" /\ (b.table = "ext" => b.chunks[p].dck = "dec")
 
 \* ---- byte-level reader of the header and chunk table ---------------------------------------------------
 \*   "BLTE" | header_size:u32be | [ flags:u8 (0x0F: 24-byte entries, 0x10: 40-byte) | count:u24be |
